@@ -2,6 +2,7 @@ package bytecode
 
 import (
 	"fmt"
+	"math"
 
 	"evylang.dev/evy/pkg/parser"
 )
@@ -490,6 +491,11 @@ func (c *Compiler) compileProgram(prog *parser.Program) error {
 		if err := c.Compile(s); err != nil {
 			return err
 		}
+	}
+	if len(c.instructions) > math.MaxUint16 {
+		// jump operands are patched in place without a range check; they
+		// all fit if every position of the program does
+		return fmt.Errorf("%w: %d bytes of instructions", ErrProgramTooLarge, len(c.instructions))
 	}
 	return nil
 }
